@@ -528,3 +528,125 @@ def _index_reassigned_between(fn, idx, s, cur, skip=None) -> bool:
                     if isinstance(x, ast.Name) and x.id in names:
                         return True
     return False
+
+
+# ---------------------------------------------------------------------------------------- token existence
+def token_exists(prog, fn: Fn, tok_expr, at) -> Optional[str]:
+    """Evidence that the token expression is not None at *at* (a reason string), or None.
+
+    check_token answers True / False / None (None = no token at that position):
+      truthy or `is True`            -> the token exists
+      `is False` holding             -> the token exists (and is of another kind)
+      early exit on `not X`, `X is None`, `not peek`   -> exists afterwards
+      early exit on `X is False`     -> NO evidence (None falls through)
+    """
+    from .facts import conjuncts, disjuncts
+    idx = None
+    if isinstance(tok_expr, ast.Call) and isinstance(tok_expr.func, ast.Attribute) and tok_expr.func.attr == "peek_token" and tok_expr.args:
+        idx = text(tok_expr.args[0])
+        if isinstance(tok_expr.args[0], ast.Constant) and tok_expr.args[0].value == 0 and fn.cls is not None \
+                and prog.is_sub(fn.cls.name, "Rule"):
+            return "position 0 of a non-empty token list (rules run only while context.tokens != [])"
+    tname = text(tok_expr)
+    if isinstance(tok_expr, ast.Name):
+        asg = [n for n in walk_fn(fn.node) if isinstance(n, ast.Assign) and any(isinstance(t, ast.Name) and t.id == tok_expr.id for t in n.targets)]
+        fors = [n for n in walk_fn(fn.node) if isinstance(n, (ast.For, ast.comprehension)) and any(
+            isinstance(x, ast.Name) and x.id == tok_expr.id for x in ast.walk(n.target))]
+        if fors and not asg:
+            return "element of an iterated token list"
+        if len(asg) == 1 and isinstance(asg[0].value, ast.Call) and isinstance(asg[0].value.func, ast.Attribute) \
+                and asg[0].value.func.attr == "peek_token":
+            ev = token_exists(prog, fn, asg[0].value, asg[0].value)
+            if ev:
+                return ev + " (at the assignment)"
+
+    def is_lookup(e):
+        return isinstance(e, ast.Call) and isinstance(e.func, ast.Attribute) and e.func.attr in ("check_token", "peek_token") \
+            and e.args and idx is not None and text(e.args[0]) == idx
+
+    def holds_true(c) -> bool:
+        """c TRUE => token exists"""
+        if is_lookup(c):
+            return True
+        if isinstance(c, ast.Name) and c.id == tname:
+            return True
+        if isinstance(c, ast.Compare) and len(c.ops) == 1:
+            L, op, R = c.left, c.ops[0], c.comparators[0]
+            if is_lookup(L) and isinstance(op, ast.Is) and isinstance(R, ast.Constant) and R.value in (True, False) and R.value is not None:
+                return True
+            if (is_lookup(L) or text(L) == tname) and isinstance(op, ast.IsNot) and isinstance(R, ast.Constant) and R.value is None:
+                return True
+            if text(L) in (tname + ".type", tname + ".value"):
+                return True           # the comparison itself would have raised otherwise (evaluated before)
+        if isinstance(c, ast.BoolOp) and isinstance(c.op, ast.And):
+            return any(holds_true(v) for v in c.values)
+        return False
+
+    def holds_false(c) -> bool:
+        """c FALSE => token exists"""
+        if isinstance(c, ast.UnaryOp) and isinstance(c.op, ast.Not):
+            return holds_true(c.operand)
+        if isinstance(c, ast.Compare) and len(c.ops) == 1:
+            L, op, R = c.left, c.ops[0], c.comparators[0]
+            if (is_lookup(L) or text(L) == tname) and isinstance(op, ast.Is) and isinstance(R, ast.Constant) and R.value is None:
+                return True
+        if isinstance(c, ast.BoolOp) and isinstance(c.op, ast.Or):
+            return any(holds_false(v) for v in c.values)
+        return False
+
+    # 1. earlier operands of the same boolean expression / IfExp
+    cur = at
+    for a in ancestors(at):
+        if isinstance(a, ast.BoolOp):
+            pos = next((i for i, v in enumerate(a.values) if _inside(cur, v)), None)
+            if pos is not None:
+                for v in a.values[:pos]:
+                    if (holds_true(v) if isinstance(a.op, ast.And) else holds_false(v)):
+                        return f"earlier operand `{text(v, 50)}`"
+        if isinstance(a, ast.IfExp) and _inside(cur, a.body) and any(holds_true(c) for c in conjuncts(a.test)):
+            return f"conditional expression on `{text(a.test, 50)}`"
+        if isinstance(a, ast.stmt):
+            break
+        cur = a
+    # 2. enclosing if / while (true branch), else-branch of a test whose falsity implies existence
+    cur = enclosing_stmt(at)
+    for a in ancestors(cur):
+        if isinstance(a, (ast.If, ast.While)):
+            if any(_inside(cur, s) for s in a.body):
+                for c in conjuncts(a.test):
+                    if holds_true(c) and not _index_changed_under(fn, idx, a, at):
+                        return f"guard `{text(c, 50)}`"
+                # bound on the index:  i < context.tkn_scope / len(context.tokens)
+                for c in conjuncts(a.test):
+                    if isinstance(c, ast.Compare) and len(c.ops) == 1 and isinstance(c.ops[0], ast.Lt) and idx is not None \
+                            and text(c.left) == idx and text(c.comparators[0]) in (
+                                "context.tkn_scope", "len(context.tokens)", "len(context.tokens[:context.tkn_scope])",
+                                "context.arg_pos[1]", "context.fname_pos") and not _index_changed_under(fn, idx, a, at):
+                        return f"index bound `{text(c, 50)}`"
+            elif isinstance(a, ast.If) and any(_inside(cur, s) for s in a.orelse):
+                for d in disjuncts(a.test):
+                    if holds_false(d):
+                        return f"else branch of `{text(d, 50)}`"
+        if isinstance(a, ast.For) and idx is not None and isinstance(a.target, ast.Name) and a.target.id == idx \
+                and "range(" in text(a.iter) and ("tkn_scope" in text(a.iter) or "len(" in text(a.iter)):
+            return f"loop over `{text(a.iter, 40)}`"
+        if isinstance(a, (ast.FunctionDef, ast.AsyncFunctionDef)):
+            break
+        cur = a
+    # 3. early exits / terminating loops before the statement
+    cur = enclosing_stmt(at)
+    for a in ancestors(cur):
+        for field in ("body", "orelse", "finalbody"):
+            blk = getattr(a, field, None)
+            if isinstance(blk, list) and any(s is cur for s in blk):
+                for s in blk:
+                    if s is cur:
+                        break
+                    if isinstance(s, ast.If) and not s.orelse and s.body and isinstance(s.body[-1], (ast.Return, ast.Raise, ast.Continue, ast.Break)):
+                        for d in disjuncts(s.test):
+                            if holds_false(d) and not _index_reassigned_between(fn, idx, s, cur):
+                                return f"early exit on `{text(d, 50)}`"
+        if isinstance(a, (ast.FunctionDef, ast.AsyncFunctionDef)):
+            break
+        cur = a
+    return None
